@@ -441,6 +441,8 @@ protected:
         else
         {
            m_freeListHeadPtr = allocate(1);
+           // If constructing the value fails, the node stays on the free list.
+           m_freeListHeadPtr->next = 0;
            newNode = m_freeListHeadPtr;
         }
 
